@@ -60,7 +60,7 @@ def main(tier, only=None):
     mulb = ("MULB=16",) if thorough else ()
     H = lambda fn, key, defs, fam, tmo=300, ob=None: e1.H(fn, key, unwind=24, defines=tuple(defs) + mulb, flags=FLAGS,
                                                            std=False, replace_calls=RC, object_bits=ob,
-                                                           timeout=tmo * (3 if thorough else 1), family=fam)
+                                                           timeout=tmo * (6 if thorough else 1), family=fam)
     if want("fold"):
         for r in ROOTS:
             hs.append(H("h_d1_" + r, "fold/d1/%s" % r, (), "fold"))
